@@ -214,7 +214,11 @@ def explore(thunk, pre=(), prune_ms=250, max_paths=4000, history=False, label=No
     try:
         for phase in ((0, 1) if hist else (0,)):
             S.ctx.work = [[]]
+            n_sched = 0
             while S.ctx.work:
+                n_sched += 1
+                if n_sched > 4 * max_paths:
+                    raise EngineError('path explosion (%d schedules run, %d paths kept)' % (n_sched, len(out) + len(hout)))
                 S.ctx.prefix = S.ctx.work.pop()
                 S.ctx.idx = 0
                 S.ctx.pc = []
